@@ -21,7 +21,7 @@ RULE = ('seeded worlds (2-8 segments, 1-4 channels, some with identical shapes s
         '/ read_data ops on one lazily opened handle. distinct = distinct abstract traces [(action, generator '
         'kind, op kind)...] x world shape; non-trivial = at least one generator was advanced with another '
         'action interleaved between two of its yields')
-EXPECTED_PROBES = ['read-between-file-chunks', 'two-generators-same-channel', 'abandoned-then-new',
+EXPECTED_PROBES = ['scaled-channel', 'read-between-file-chunks', 'two-generators-same-channel', 'abandoned-then-new',
                    'index-cache-hit-after-other-read', 'generator-drained-at-end']
 MAX_LIVE = 8
 
@@ -35,6 +35,16 @@ def opts(tier):
     o.max_chunks = 4
     o.equal_shapes_p = 0.3
     o.typeless_p = 0.05
+    o.short_last_p = 0.08
+
+    def scaling(rng, spec, ctype):
+        # scaled channels: the one-chunk cache then holds scaled chunks and scaling objects are shared by all reads
+        if rng.random() < 0.3:
+            from .c14 import add_sensor
+            from .c13 import add_scaling
+            add_sensor(rng, spec, ctype, 0.3, only_float=True)
+            add_scaling(rng, spec, ctype, p=0.5)
+    o.scaling = scaling
     return o
 
 
@@ -148,6 +158,20 @@ def execute(case):
             return res
         res.backend = case['backend']
         fulls = {p: _lazy.model_full(c, raw_ts) for p, c in w.chans.items()}
+        from .. import scalemodel
+        scaled = [p for p in w.chans if w.chans[p].type not in (None, 'daqmx') and scalemodel.channel_scales(w, p) is not None]
+        if scaled:
+            # scaled channels: the oracle is what the same read yields on a freshly opened file
+            res.probe('scaled-channel')
+            fresh = lib.TdmsFile.open(st.source('simstream', 'w.tdms'), raw_timestamps=raw_ts)
+            try:
+                for p in scaled:
+                    r_, exc_, _eo = ops.try_op(lambda: ops.norm(ops.chan(fresh, w, p)[:]))
+                    fulls[p] = r_ if (r_ is not None and r_[0] in ('arr', 'strs', 'rawts')) else None
+            finally:
+                fresh.close()
+        keeper = ops.Keeper()
+        res.held = []
         gens = {}        # id -> [generator, action, position, reference list]
         last_advanced = None
         dropped_kinds = set()
@@ -218,7 +242,7 @@ def execute(case):
                     else:
                         for k_ in list(other_read_since):
                             other_read_since[k_] = True
-                    v, g_, exc = _lazy.check_op(tf, w, op, full, 'C05.op', 'lazy')
+                    v, g_, exc = _lazy.check_op(tf, w, op, full, 'C05.op', 'lazy', keeper=keeper)
                     res.compared += 1
                     if v is not None:
                         v.sig['step'] = step
@@ -244,6 +268,17 @@ def execute(case):
                     res.violations.append(V('C05.iterator-does-not-finish', '%s generator still yields after %d items' % (
                         g[1]['kind'], len(g[3])), kind=g[1]['kind']))
                 res.probe('generator-drained-at-end')
+            for (kind_, ch_, item_, got_) in res.held:
+                now = norm_item(kind_, item_, w)
+                if now != got_:
+                    res.violations.append(V('C05.item-changed-later', 'an item yielded by a %s generator%s reads differently after later '
+                                            'operations: was %s, now %s' % (kind_, ' of ' + ch_ if ch_ else '', _lazy._short(got_),
+                                                                            _lazy._short(now)), kind=kind_))
+                    break
+            res.held = None
+            for (label, before, after) in keeper.mutated()[:3]:
+                res.violations.append(V('C05.result-changed-later', 'the array returned by %s changed when later reads ran: was %s, '
+                                        'now %s' % (label, _lazy._short(before), _lazy._short(after))))
         finally:
             tf.close()
         for k, v_ in st.fs.faults_fired.items():
@@ -271,6 +306,9 @@ def advance(g, w, step, res):
         return V('C05.iterator-raises', '%s generator raised %s: %s at item %d' % (a['kind'], type(exc).__name__, exc, pos),
                  kind=a['kind'], exc=type(exc).__name__)
     got = norm_item(a['kind'], item, w)
+    held = getattr(res, 'held', None)
+    if held is not None and len(held) < 200:
+        held.append((a['kind'], a.get('ch'), item, got))
     res.compared += 1
     res.ev(step, 'next', a['kind'], pos, digest(got))
     if pos >= len(ref):
